@@ -205,7 +205,19 @@ def op_host_dumps(c):
     """host marshal.dumps(v, version) for version 0 and 1 -> streams"""
     import marshal
     v = _plain_from_spec(c["value"])
-    return {"v0": list(marshal.dumps(v, 0)), "v1": list(marshal.dumps(v, 1)), "orig": obs_value(v, True)}
+    g17 = {}
+
+    def walk(x):
+        if isinstance(x, float):
+            g17[fbits(x)] = list(("%.17g" % x).encode())      # PyOS_double_to_string(x, 'g', 17, 0, NULL); inf / nan spelled as marshal does
+        elif isinstance(x, complex):
+            walk(x.real); walk(x.imag)
+        elif isinstance(x, (tuple, list, set, frozenset)):
+            for y in x: walk(y)
+        elif isinstance(x, dict):
+            for a, b in x.items(): walk(a); walk(b)
+    walk(v)
+    return {"v0": list(marshal.dumps(v, 0)), "v1": list(marshal.dumps(v, 1)), "orig": obs_value(v, True), "seen": _spec_from_plain(v), "g17": sorted(g17.items())}
 
 
 _AUDIT = {"on": False, "events": []}
